@@ -234,6 +234,7 @@ def qstr(k):
 
 DECIMALS = ['0.1', '0.15', '0.3', '0.6', '0.7', '1.005', '2.675', '1.1', '2.3', '1234.5678', '0.000001',
             # 16-17 significant digits, a hair off a multiple: the hair decides
+            '4503599627370497.0', '4503599627370495.5', '2251799813685248.5', '45035996273704.97', '9007199254740991.0',
             '0.9999999999999996', '1234567890.999996', '1000000000.000004', '1234.567890999996', '4.000000000000001', '7.999999999999999',
             '0.0000005', '123456.789', '99.995', '0.05', '1.45', '8.125']
 
@@ -353,7 +354,8 @@ class Rounding(Sub):
             r = getnum(o)
             # a rounding function lands ON a multiple: the result is held to a few units in the last place of the target
             # (the general 1e-9 would accept 1234567891 for 1234567890)
-            if r is None or not any(r == t or abs(F(r) - t) <= abs(t) / 2 ** 50 for t in targets):
+            # ... and where the target is itself a double (every whole number below 2^53, 0.5, 0.25 ...) it must be hit exactly
+            if r is None or not any(r == t or (F(float(t)) != t and abs(F(r) - t) <= abs(t) / 2 ** 52) for t in targets):
                 out.append(fail('%s with number %s, digits %d gives %r; expected %s (a multiple of 1e%d %s)' % (
                     f, s, d, o, ' or '.join(str(show(t)) for t in targets), -d,
                     {'ROUND': 'within half a unit', 'ROUNDUP': 'at or above in magnitude, less than a unit away',
@@ -530,7 +532,8 @@ class IntParitySign(Sub):
             r = getnum(o)
             # a rounding function lands ON a multiple: the result is held to a few units in the last place of the target
             # (the general 1e-9 would accept 1234567891 for 1234567890)
-            if r is None or not any(r == t or abs(F(r) - t) <= abs(t) / 2 ** 50 for t in targets):
+            # ... and where the target is itself a double (every whole number below 2^53, 0.5, 0.25 ...) it must be hit exactly
+            if r is None or not any(r == t or (F(float(t)) != t and abs(F(r) - t) <= abs(t) / 2 ** 52) for t in targets):
                 out.append(fail('%s with number %s gives %r; expected %s' % (
                     f, s, o, ' or '.join(str(t) for t in targets)), targets, o))
         return out
